@@ -95,7 +95,11 @@ func mkArch(name, mode string) (dependency.Arch, error) {
 		if err != nil {
 			return dependency.Arch{}, err
 		}
-		return *a, nil
+		// the value is the caller's; he copies it and scribbles over the original (a scratch value reused):
+		// no later result may be affected
+		v := *a
+		*a = dependency.Arch{ABI: "edited", OS: "by", CPU: "caller"}
+		return v, nil
 	default: // UnmarshalControl into a fresh value
 		var a dependency.Arch
 		err := a.UnmarshalControl(name)
